@@ -253,4 +253,69 @@ theorem wfCount_mono {T : Tables} {depth d' : Nat} {ids : List Nat}
   obtain ⟨t, ht⟩ := (wfCount_iff_build T depth ids).1 h
   exact (wfCount_iff_build T d' ids).2 ⟨t, buildD_mono T depth ids t ht d' hle⟩
 
+theorem bind_assoc' {α β γ} (x : CM α) (f : α → CM β) (g : β → CM γ) :
+    (x >>= f >>= g) = (x >>= fun a => f a >>= g) := by
+  cases x <;> rfl
+
+theorem flatWalk_append (P : Prims) (T : Tables) (fuel : Nat) (ids₁ ids₂ : List Nat) :
+    scopesClosed ids₁ = true →
+    ∀ s, flatWalk P T fuel (ids₁ ++ ids₂) s = (flatWalk P T fuel ids₁ s >>= flatWalk P T fuel ids₂) := by
+  fun_induction scopesClosed ids₁
+  · intro _ s; rw [flatWalk.eq_def P T fuel []]; rfl
+  · intro h; cases h
+  · rename_i id h1 hy f rest ih
+    intro h s
+    simp only [Bool.and_eq_true, decide_eq_true_eq] at h
+    have h3 : ¬ 300000 ≤ id := by omega
+    have h2 : ¬ 200000 ≤ id := by omega
+    rw [flatWalk.eq_def P T fuel (id :: f :: rest), List.cons_append, List.cons_append, flatWalk.eq_def]
+    simp only [h3, h2, h1.1, hy, if_true, if_false, List.take_append_of_le_length h.1,
+      List.drop_append_of_le_length h.1, ih h.2, bind_assoc']
+  · rename_i id rest h1 hy ih
+    intro h s
+    simp only [Bool.and_eq_true, decide_eq_true_eq] at h
+    have h3 : ¬ 300000 ≤ id := by omega
+    have h2 : ¬ 200000 ≤ id := by omega
+    rw [flatWalk.eq_def P T fuel (id :: rest), List.cons_append, flatWalk.eq_def]
+    simp only [h3, h2, h1.1, hy, if_true, if_false, List.take_append_of_le_length h.1,
+      List.drop_append_of_le_length h.1, ih h.2, bind_assoc']
+  · rename_i id rest h1 ih
+    intro h s
+    rw [flatWalk.eq_def P T fuel (id :: rest), List.cons_append, flatWalk.eq_def]
+    by_cases h3 : 300000 ≤ id
+    · simp only [h3, if_true]
+      cases T.d id with
+      | none => simp only [ih h, bind_assoc']
+      | some row =>
+        cases fuel with
+        | zero => rfl
+        | succ fuel' => simp only [ih h, bind_assoc']
+    · by_cases h2 : 200000 ≤ id
+      · simp only [h3, h2, if_true, if_false, ih h, bind_assoc']
+      · have h1' : ¬ 100000 ≤ id := by omega
+        simp only [h3, h2, h1', if_false]
+        cases T.b id <;> simp only [ih h, bind_assoc']
+
+/-- more fuel does not change the flat reading of a well-counted list -/
+theorem flatWalk_fuel_mono (P : Prims) (T : Tables) {d fuel : Nat} {ids : List Nat}
+    (h : wfCount T d ids = true) (hle : d ≤ fuel) (s : St) :
+    flatWalk P T fuel ids s = flatWalk P T d ids s := by
+  obtain ⟨t, ht⟩ := (wfCount_iff_build T d ids).1 h
+  rw [flatWalk_eq_walk P T d ids t ht, flatWalk_eq_walk P T fuel ids t (buildD_mono T d ids t ht fuel hle)]
+
+/-- no 221 count running, no 206 skip pending, no bitmap being defined -/
+def NoPending (s : St) : Prop :=
+  s.regs.dnpCount = 0 ∧ s.regs.nbitsSkipped = 0 ∧ s.regs.bitmapDef = .na
+
+theorem memberPrelude_none {P : Prims} {s : St} (h : NoPending s) (id : Nat) (act : St → CM St) :
+    memberPrelude P id none act s = act s := by
+  obtain ⟨h1, h2, h3⟩ := h
+  simp [memberPrelude, memberRules, bitmapDefinition, h1, h2, h3]
+
+theorem memberPrelude_some {P : Prims} {s : St} (h : NoPending s) (h203 : s.regs.nbitsNewRefval = 0)
+    (id : Nat) (e : Elem) (act : St → CM St) :
+    memberPrelude P id (some e) act s = act s := by
+  obtain ⟨h1, h2, h3⟩ := h
+  simp [memberPrelude, memberRules, bitmapDefinition, h1, h2, h3, h203]
+
 end Bufr.Flat
